@@ -12,6 +12,19 @@ pub fn run(opts: &Opts) -> Run {
         let d = rng.bytes(len);
         run.case(format!("spec xxh64 {}", hex(&d)), format!("ok {:016x}", xxh64(&d, 0)));
     }
+    // the repository's decode corpus: frames from zstd's decodecorpus generator (rare features)
+    let corpus = gen::repo_corpus(if opts.thorough { 300_000 } else { 12_000 });
+    let take = if opts.thorough { corpus.len() } else { 30 };
+    let start = if corpus.is_empty() { 0 } else { (opts.seed as usize * 7) % corpus.len() };
+    for k in 0..take.min(corpus.len()) {
+        let (name, f, o) = &corpus[(start + k) % corpus.len()];
+        // a corpus file may hold several frames; the Spec request decodes the whole concatenation
+        run.case(format!("spec all {}", hex(f)), format!("ok {}", digest(o)));
+        run.stat("repo_corpus_files", 1);
+        if k == 0 {
+            run.samples.push(format!("repo corpus {} ({} -> {} bytes)", name, f.len(), o.len()));
+        }
+    }
     let n = if opts.thorough { 1500 } else { 60 };
     let max = if opts.thorough { 400_000 } else { 40_000 };
     for i in 0..n {
